@@ -130,6 +130,8 @@ type Explorer struct {
 	rangeDef map[ast.Expr]bool
 	unstable map[types.Object]bool // locals that are address-taken or assigned in nested literals
 	atoms    map[string]*atomMeta
+	inl      map[*types.Var]ast.Expr
+	inlBusy  map[*types.Var]bool
 }
 
 type atomMeta struct {
@@ -871,6 +873,12 @@ func (x *Explorer) meta(k string, e ast.Expr) {
 	walk = func(e ast.Expr) {
 		switch e := e.(type) {
 		case *ast.Ident:
+			if v, ok := ObjOf(info, e).(*types.Var); ok && v.Pkg() != nil && v.Parent() != v.Pkg().Scope() && !v.IsField() {
+				if def := x.inlineDef(v); def != nil {
+					walk(def) // the key renders the definition, so the fact is about the definition's operands
+					return
+				}
+			}
 			if kk, ok := x.key(e); ok {
 				m.mentions[kk] = true
 			}
@@ -967,10 +975,17 @@ func (x *Explorer) render(sb *strings.Builder, e ast.Expr) bool {
 	info := x.Fn.Info()
 	switch e := e.(type) {
 	case *ast.Ident:
-		sb.WriteString(e.Name)
 		if o, ok := ObjOf(info, e).(*types.Var); ok && o.Pkg() != nil && o.Parent() != o.Pkg().Scope() && !o.IsField() {
+			// a single-assignment local bound to an expression whose value cannot change is rendered as
+			// that expression: `typ := n.Type(); if typ != X {fail}` then establishes a fact about n.Type()
+			if def := x.inlineDef(o); def != nil {
+				return x.render(sb, def)
+			}
+			sb.WriteString(e.Name)
 			fmt.Fprintf(sb, "·%d", int(o.Pos()-x.Fn.Pos()))
+			return true
 		}
+		sb.WriteString(e.Name)
 		return true
 	case *ast.BasicLit:
 		sb.WriteString(e.Value)
@@ -1048,6 +1063,101 @@ func (x *Explorer) render(sb *strings.Builder, e ast.Expr) bool {
 		}
 		sb.WriteString(")")
 		return true
+	}
+	return false
+}
+
+// inlineDef returns the defining expression of a local that is assigned exactly once, when that
+// expression is immutable: built from never-reassigned locals/parameters, fields of the
+// parse-time-immutable types, constants and pure calls.
+func (x *Explorer) inlineDef(o *types.Var) ast.Expr {
+	if x.inl == nil {
+		x.inl = map[*types.Var]ast.Expr{}
+		x.inlBusy = map[*types.Var]bool{}
+	}
+	if d, ok := x.inl[o]; ok {
+		return d
+	}
+	if x.inlBusy[o] {
+		return nil
+	}
+	x.inlBusy[o] = true
+	defer delete(x.inlBusy, o)
+	var res ast.Expr
+	if !x.unstable[o] {
+		if defs := LocalDefs(x.Fn, o); len(defs) == 1 && defs[0] != nil {
+			if _, isParam := IsParam(x.Fn, o); !isParam && x.immutable(defs[0], 0) {
+				res = defs[0]
+			}
+		}
+	}
+	x.inl[o] = res
+	return res
+}
+
+func (x *Explorer) immutable(e ast.Expr, depth int) bool {
+	if depth > 8 {
+		return false
+	}
+	info := x.Fn.Info()
+	switch e := e.(type) {
+	case *ast.BasicLit:
+		return true
+	case *ast.ParenExpr:
+		return x.immutable(e.X, depth+1)
+	case *ast.Ident:
+		if tv, ok := info.Types[e]; ok && tv.Value != nil {
+			return true
+		}
+		switch o := ObjOf(info, e).(type) {
+		case *types.Const, *types.Nil:
+			return true
+		case *types.Var:
+			if o.IsField() || o.Pkg() == nil || o.Parent() == o.Pkg().Scope() || x.unstable[o] {
+				return false
+			}
+			n := 0
+			for range LocalDefs(x.Fn.Root(), o) {
+				n++
+			}
+			_, isParam := IsParam(x.Fn.Root(), o)
+			return (isParam && n == 0) || (!isParam && n == 1)
+		}
+		return false
+	case *ast.SelectorExpr:
+		if id, ok := e.X.(*ast.Ident); ok {
+			if _, isPkg := info.Uses[id].(*types.PkgName); isPkg {
+				_, isConst := info.Uses[e.Sel].(*types.Const)
+				return isConst
+			}
+		}
+		if FieldOf(info, e) == nil || !x.P.StableField(info, e) {
+			return false
+		}
+		return x.immutable(e.X, depth+1)
+	case *ast.CallExpr:
+		if !x.PureCall(e) {
+			return false
+		}
+		if s, ok := Unparen(e.Fun).(*ast.SelectorExpr); ok {
+			if id, isId := s.X.(*ast.Ident); !isId || func() bool { _, isPkg := info.Uses[id].(*types.PkgName); return !isPkg }() {
+				if !x.immutable(s.X, depth+1) {
+					return false
+				}
+			}
+		}
+		for _, a := range e.Args {
+			if !x.immutable(a, depth+1) {
+				return false
+			}
+		}
+		return true
+	case *ast.BinaryExpr:
+		return x.immutable(e.X, depth+1) && x.immutable(e.Y, depth+1)
+	case *ast.UnaryExpr:
+		return e.Op != token.ARROW && e.Op != token.AND && x.immutable(e.X, depth+1)
+	case *ast.TypeAssertExpr:
+		return x.immutable(e.X, depth+1)
 	}
 	return false
 }
